@@ -1,5 +1,6 @@
 """C03 History depth and tag depth equal the longest chains."""
-from ._camp import run_campaign
+from ._camp import run_campaign, api_delay_stage
+from .. import oracle as _O
 
 LEVEL = "exploration"
 
@@ -20,4 +21,5 @@ def run(chk, b, tier):
                  "timestamp profiles (increasing, decreasing = children older than parents, equal, random, zero, >2^32), tag "
                  "chains/forests with shuffled reference names; max_history_depth / max_tag_depth vs DP on the model. "
                  "Non-trivial: at least one merge commit and depth>=2, or a tag chain >=2.", permute=0.3, nsel=2)
+    api_delay_stage(chk, b, _O.DEPTH_KEYS + (["reference_count"] if "C03" == "C01" else []), "C03", 6 if tier == "quick" else 150)
     chk.assumptions += ["reference model and generator trusted; generator self-checked against git"]
